@@ -32,7 +32,9 @@ pub(crate) fn as_f64(value: &Value, lossy: bool) -> Option<f64> {
     macro_rules! checked {
         ($expr:expr, $ty:ty) => {{
             let rv = $expr as f64;
-            return if lossy || rv as $ty == $expr {
+            // float to integer casts saturate, so a value that was rounded up
+            // to the first float out of range must not count as lossless.
+            return if lossy || (rv < <$ty>::MAX as f64 && rv as $ty == $expr) {
                 Some(rv)
             } else {
                 None
